@@ -603,7 +603,7 @@ func (f ForkId) UnmatchedParts(upstream syntax.ForkRootList) syntax.ForkRootList
 			// skipping at least one, so it won't ever need to grow, and being
 			// smaller than the length of upstream means the capacity will no
 			// longer match either.
-			result = make(syntax.ForkRootList, i-1, len(upstream)-1)
+			result = make(syntax.ForkRootList, i, len(upstream)-1)
 			copy(result, upstream[:i])
 		}
 	}
